@@ -109,11 +109,27 @@ def check(rep, an, tier):
                             rep.check("R-FORWARD", f"relative → {fn.name}(relative=)", ok, where=ev.loc,
                                       construct=f"self.{fn.name}(…) in {meth}", entry=entry, config=cfg,
                                       msg=f"`{fn.name}` is called without forwarding `relative`: it uses its default (True) even for absolute captures")
+                    if meth == "hull_dist_scaling":
+                        early = [ev for ev in res.events("call") if ev.d["callee"].name == "in_hull" and ev.d["callee"].cls and len(ev.path) == 1]
+                        for ev in early:
+                            nv = ev.d["kws"].get("normalized")
+                            rep.check("R-FORWARD", "the early return uses the CHROMATIC membership test", nv is not None and nv.known and nv.const is True,
+                                      where=ev.loc, construct="self.in_hull(…, normalized=True) in hull_dist_scaling", entry=entry, config=cfg,
+                                      msg="the early in-gamut test is the plain (intensity-dependent) membership test: targets whose chromaticity is "
+                                          "in gamut but whose intensity is not are needlessly desaturated, and vice versa")
+                    else:
+                        want = "TOTAL" if rel else None
+                        if want:
+                            rep.check("R-QTY", "intensity scaling returns total captures (baseline re-added once)", None if v.frame is None else v.frame == want,
+                                      where=res.fn.loc(), construct="frame of the result of hull_l1_scaling", entry=entry, config=cfg,
+                                      msg=f"the result is a {v.frame} capture: the baseline is not removed before / re-added after the common factor")
                     F.qty(rep, res, entry, subs=("mismatch", "centre"))
                     R.rule_type_errors(rep, res, "SHAPE", "R-SHAPE", entry)
                     R.rule_purity(rep, res, entry)
                     R.rule_effect_free(rep, res, entry)
                     CC.membership_frames(rep, res, entry)
+                    if meth == "hull_dist_scaling":
+                        CC.corner_map(rep, res, entry)
                     if Fax == "#2":
                         n = CC.dim1(rep, res, entry)
                     if meth == "hull_dist_scaling":
@@ -137,8 +153,12 @@ def dist_structure(rep, res, entry, Fax):
     # boundary multiple: hull and targets centred on the same point
     for ev in res.events("boundary_multiple"):
         B, P = ev.d["B"], ev.d["hull_points"]
-        if B is None or P is None or B.frame is None or P.frame is None:
+        if B is None or P is None or (B.frame is None and P.frame is None):
             rep.undecided("R-QTY", "hull and targets centred on the same point", where=ev.loc, construct=ev.text(), entry=entry, config=res.config)
+        elif (B.frame is None) != (P.frame is None):
+            rep.violated("R-QTY", "hull and targets centred on the same point", where=ev.loc, construct=ev.text(), entry=entry, config=res.config,
+                         msg="only one of the gamut vertices / the targets is centred on the neutral point before the boundary multiple is "
+                             "computed: hue directions are measured from different origins")
         else:
             rep.check("R-QTY", "hull and targets centred on the same point", B.frame == P.frame, where=ev.loc, construct=ev.text(), entry=entry,
                       config=res.config, msg=f"targets centred by {B.frame[1] if isinstance(B.frame, tuple) else B.frame}, hull by "
@@ -155,6 +175,12 @@ def dist_structure(rep, res, entry, Fax):
     # totals reused for the re-expansion come from the targets
     calls = [ev for ev in res.events("call") if ev.d["callee"].name == "cartesian_to_barycentric" and len(ev.path) == 1]
     for ev in calls:
+        X0 = ev.d["args"][0] if ev.d["args"] else ev.d["kws"].get("X")
+        if X0 is not None and X0.tag("bary"):
+            cent = isinstance(X0.frame, tuple) and X0.frame[0] == "CENT"
+            rep.check("R-QTY", "the centre is added back before re-expanding", not cent, where=ev.loc, construct=ev.text(), entry=entry,
+                      config=res.config,
+                      msg="the scaled chromatic coordinates are still centred on the neutral point when they are converted back to captures")
         L1 = ev.d["args"][1] if len(ev.d["args"]) > 1 else ev.d["kws"].get("L1")
         rep.check("R-FLOW", "re-expansion uses the targets' own totals", L1 is not None and "B" in L1.flat().data, where=ev.loc,
                   construct=ev.text(), entry=entry, config=res.config)
